@@ -30,7 +30,7 @@ ASSUMPTIONS = ["streams start at a frame boundary and end with a sentinel frame,
                "by a frame start", "end-to-end sessions whose bytes were not all delivered before the receive timeout are "
                "counted as inconclusive sessions, never as violations"]
 REQUIRED = ["beast_single", "beast_double", "beast_random", "beast_cut_inside_escape", "beast_cut_after_frame_start",
-            "beast_rssi", "raw_single", "raw_double", "sky_single", "sky_double", "netsource", "netsource_commb_backlog_over_1000", "e2e_sessions"]
+            "beast_rssi", "raw_single", "raw_double", "sky_single", "sky_double", "netsource", "netsource_commb_backlog_over_1000", "second_client_alive", "e2e_sessions"]
 # e2e_midframe_boundary (a recv() boundary inside a frame was actually observed) is reported in the evidence but not
 # required: TCP may coalesce pieces on a loaded machine and that must not turn the verdict inconclusive
 
@@ -77,6 +77,9 @@ READERS = {"beast": "read_beast_buffer", "beast_rssi": "read_beast_buffer_rssi_p
 def run_seg(ctx, kind, reader, stream, cuts, exp, extra, info):
     c = new_client({"beast_rssi": "beast", "sky": "skysense"}.get(kind, kind))
     fn = getattr(c, READERS[kind])
+    # a second client object of the same kind is alive and parsing another feed in between (two receivers in one program)
+    c2 = new_client({"beast_rssi": "beast", "sky": "skysense"}.get(kind, kind)) if len(stream) % 3 == 0 else None
+    fn2 = getattr(c2, READERS[kind]) if c2 is not None else None
     ends = [e for e, _ in exp]
     msgs_exp = [m for _, m in exp]
     emitted = []
@@ -84,6 +87,10 @@ def run_seg(ctx, kind, reader, stream, cuts, exp, extra, info):
     for cut in list(cuts) + [len(stream)]:
         if cut <= pos:
             continue
+        if c2 is not None:
+            c2.buffer.extend(bytes(reversed(stream[pos:cut])) + stream[:7])
+            call(fn2)
+            ctx.hit("second_client_alive")
         c.buffer.extend(stream[pos:cut])
         pos = cut
         r = call(fn)
